@@ -252,4 +252,101 @@ theorem stepA {env : Env} {file : AFile} {G : List String} {P : Prog} {F : GFile
         | fuel => intro _; trivial
         | stuck s => intro _; trivial
 
+/-- the statements a `let x = v` contributes, before those of its body -/
+def letPrefix (env : Env) (st : St) (x : String) (v : CExpr) : List GStmt :=
+  if isCtl v then
+    .varDecl (vn x) (cexprTy env v) none ::
+      (compileTail env (.assign (rn x)) (st.check (okTy (cexprTastTy env v))) v).1
+  else compileBindSimple env x v
+
+/-- the counter / flag state with which the body of the `let` is compiled -/
+def letBodySt (env : Env) (st : St) (x : String) (v : CExpr) : St :=
+  if isCtl v then (compileTail env (.assign (rn x)) (st.check (okTy (cexprTastTy env v))) v).2
+  else st.check (okBindSimple env v)
+
+theorem compileA_let (env : Env) (m : Mode) (st : St) (x : String) (v : CExpr) (body : AExpr) (ty : Ty) :
+    (compileA env m st (.letE x v body ty)).1 =
+      letPrefix env st x v ++ (compileA env m (letBodySt env st x v) body).1 := by
+  simp only [compileA, letPrefix, letBodySt]
+  split <;> rfl
+
+/-- **ordering**: the statements of `v` run to completion — leaving the `Sem` world after `v` and
+    the value of `v` in `x` — before any statement of the body; if `v` panics, nothing after it runs -/
+theorem let_order {env : Env} {file : AFile} {G : List String} {P : Prog} {F : GFile} {n : Nat}
+    (hv : SimV env file G P F n) (hc : SimC env file G P F n)
+    (m : Mode) (st : St) (x : String) (v : CExpr) (body : AExpr) (ty : Ty) (Γ : Ctx) (ρ : Sem.Env) (w : World)
+    (gρ : GEnv) (gw : GWorld) (Bad : List String)
+    (hfrag : fragA env file G Γ (.letE x v body ty) = true) (hrel : EnvRel Γ ρ gρ) (hw : WRel w gw)
+    (hinv : GInv Bad (compileA env m st (.letE x v body ty)).1 gρ) (hus : "_" ∈ Bad)
+    (hcal : ∀ c, c ∈ calleesA (.letE x v body ty) → vn c ∈ Bad) :
+    match Sem.eval n P ρ w v.toExpr with
+    | .ok vv w1 => ∃ env1 gv gw1, BlockS F gρ gw (letPrefix env st x v) (.ok (env1, .normal) gw1) ∧ WRel w1 gw1 ∧
+        lookupG env1 (vn x) = some gv ∧ toG vv = some gv
+    | .fail (.panic k) w1 => ∀ rest, ∃ gw1, BlockS F gρ gw (letPrefix env st x v ++ rest) (.fail (.panic k) gw1) ∧ WRel w1 gw1
+    | _ => True := by
+  simp only [fragA, Bool.and_eq_true] at hfrag
+  obtain ⟨hfv, hfb⟩ := hfrag
+  have hcalv : ∀ c, c ∈ calleesC v → vn c ∈ Bad := fun c hc' => hcal c (by simp [calleesA, hc'])
+  have hsc := fragC_scalar hfv
+  rw [compileA_let] at hinv
+  have hinvP := hinv.left
+  by_cases hctl : isCtl v = true
+  · simp only [letPrefix, hctl, if_true] at hinvP ⊢
+    rw [show cexprTy env v = goTy v.annTy by simp [cexprTy, cexprTastTy_frag hfv]] at hinvP ⊢
+    generalize hd : compileTail env (.assign (rn x)) (st.check (okTy (cexprTastTy env v))) v = d at hinvP ⊢
+    have hfresh : ¬ vn x ∈ Goml.Dce.keys gρ := hinvP.disj _ (by rw [allDecls_varDecl]; exact List.mem_cons_self)
+    have hvd : StmtS F gρ gw (.varDecl (vn x) (goTy v.annTy) none) (.ok ((vn x, zero F (goTy v.annTy)) :: gρ, .normal) gw) :=
+      stmt_varDecl_none (scalar_not_absurd hsc)
+    have hne : ∀ y ty, lookupTy Γ y = some ty → vn y ≠ vn x := fun y ty hy e => by
+      obtain ⟨_, _, _, h2, _, _⟩ := hrel.1 y ty hy
+      exact hfresh (e ▸ Goml.Dce.key_of_lookup_some h2)
+    have hrel1 : EnvRel Γ ρ ((vn x, zero F (goTy v.annTy)) :: gρ) :=
+      hrel.go_agree (fun y ty hy => Goml.Dce.lookup_cons_ne _ _ (fun e => hne y ty hy e.symm))
+    have hinvd : GInv Bad d.1 ((vn x, zero F (goTy v.annTy)) :: gρ) :=
+      GInv.right (a := [GStmt.varDecl (vn x) (goTy v.annTy) none]) (b := d.1)
+        (D := [(vn x, zero F (goTy v.annTy))]) (U := gρ) (by simpa using hinvP) rfl (fun y hy => by
+          simp only [Goml.Dce.keys_cons, Goml.Dce.keys_nil, List.mem_singleton] at hy; subst hy
+          rw [allDecls_varDecl]; exact List.mem_cons_self)
+    have htgtd : TgtOK (.assign (rn x)) Γ ((vn x, zero F (goTy v.annTy)) :: gρ) v.annTy := by
+      refine ⟨by rw [← vn_def]; simp, fun y ty hy => ?_⟩
+      rw [← vn_def]; exact hne y ty hy
+    have hD := hc (.assign (rn x)) _ v Γ ρ w _ gw Bad hfv hrel1 hw (hd ▸ hinvd) htgtd hus hcalv
+    rw [hd] at hD
+    revert hD
+    cases hres : Sem.eval n P ρ w v.toExpr with
+    | ok vv w1 =>
+      rintro ⟨D1, gv, gw1, hb, h3, h4, h5, hD1⟩
+      have hup : post (.assign (rn x)) ((vn x, zero F (goTy v.annTy)) :: gρ) gv = (vn x, gv) :: gρ := by
+        simp only [post]; rw [← vn_def]; exact update_cons_self _ _ _ _
+      rw [hup] at hb
+      have hxD1 : ¬ vn x ∈ Goml.Dce.keys D1 := fun h => by
+        have hnd := hinvP.nodup; rw [allDecls_varDecl] at hnd
+        exact (List.nodup_cons.mp hnd).1 (hD1 _ h)
+      exact ⟨_, gv, gw1, block_cons hvd hb, h5, by rw [lookup_append_right hxD1]; exact Goml.Dce.lookup_cons_self _ _ _, h3⟩
+    | fail fl w1 =>
+      cases fl with
+      | panic k =>
+        rintro ⟨gw1, hb, h5⟩
+        intro rest
+        exact ⟨gw1, block_cons hvd (block_append_panic (b := rest) hb), h5⟩
+      | fuel => intro _; trivial
+      | stuck s => intro _; trivial
+  · have hctl' : isCtl v = false := by simpa using hctl
+    simp only [letPrefix, hctl', Bool.false_eq_true, if_false, bindSimple_shape x hfv] at hinvP ⊢
+    have hV := hv v Γ ρ w gρ gw Bad hctl' hfv hrel hw hinvP.goodK hcalv
+    revert hV
+    cases hres : Sem.eval n P ρ w v.toExpr with
+    | ok vv w1 =>
+      rintro ⟨gv, gw1, he, h3, h4, h5⟩
+      exact ⟨_, gv, gw1, block_cons (stmt_varDecl_some (scalar_not_absurd hsc) he) block_nil, h5,
+        Goml.Dce.lookup_cons_self _ _ _, h3⟩
+    | fail fl w1 =>
+      cases fl with
+      | panic k =>
+        rintro ⟨gw1, he, h5⟩
+        intro rest
+        exact ⟨gw1, block_cons_fail (stmt_varDecl_fail (scalar_not_absurd hsc) he), h5⟩
+      | fuel => intro _; trivial
+      | stuck s => intro _; trivial
+
 end Goml.GoComp
